@@ -453,8 +453,10 @@ def run(ctx):
                        "does not say who is the server then)",
                        "option vectors are observed by wrapping arg_parser_init/get_port_map inside the real run() on an empty capture"]
     ctx.gen_tables = extract.all_tables()
-    ctx.prove(["TLX.Props.C10"])
-    ctx.require_theorems(THEOREMS)
+    import export_props_thms, file_corr     # whole-program form (Props/ExportProps) about TLX.Export.framesFrom, tied file to file
+    ctx.prove(["TLX.Props.C10"] + export_props_thms.MODULES)
+    ctx.require_theorems(THEOREMS + export_props_thms.THEOREMS_C10)
+    file_corr.correspond(ctx, ctx.n(12, 200))     # ties the whole-program model (ExportProps' subject) file to file
     explore(ctx)
     return ctx.finish(search=lambda c: explore(c, scale=3))
 
